@@ -50,6 +50,10 @@ func (c *Converter) ExpandUpdate(ctx context.Context, upd *sdcpb.Update, include
 	if upd.GetValue() == nil {
 		return nil, fmt.Errorf("update for path %s carries no value", ToXPath(upd.GetPath(), false))
 	}
+	// an update without a path refers to the root
+	if upd.GetPath() == nil {
+		upd.Path = &sdcpb.Path{}
+	}
 	upds := make([]*sdcpb.Update, 0)
 	if includeKeysAsLeaf {
 		// expand update path if it contains keys
